@@ -84,6 +84,10 @@ private:
         // Calculate inv(A - r * I) * vj
         Vector v_real(m_n), v_imag(m_n), OPv_real(m_n), OPv_imag(m_n);
         const Scalar eps = TypeTraits<Scalar>::epsilon();
+        // If the user's operator throws while the probe shift is installed,
+        // the original shift is restored before the exception is passed on
+        try
+        {
         for (Index i = 0; i < m_nev; i++)
         {
             v_real.noalias() = m_fac.matrix_V() * m_ritz_vec.col(i).real();
@@ -128,6 +132,13 @@ private:
             {
                 m_ritz_val[i] = Complex(Eigen::numext::real(lambdaj), Scalar(0));
             }
+        }
+
+        }
+        catch (...)
+        {
+            m_op.set_shift(m_sigmar, m_sigmai);
+            throw;
         }
 
         // Restore the shift given at construction: the operator belongs to the user,
